@@ -214,7 +214,8 @@ VIOLATED, DETAIL = False, ''
 for make in (lambda: create_new_processor(processor=proc, parameter_dict={'detector.characteristics.quantum_efficiency': 0.25}),
              lambda: proc.replace({'pipeline.photon_collection.m.arguments.level': 5}), lambda: copy.deepcopy(proc),
              lambda: proc.replace({'detector.characteristics.quantum_efficiency': 0.5}),          # values the processor already holds
-             lambda: create_new_processor(processor=proc, parameter_dict={'detector.characteristics.quantum_efficiency': 0.5})):
+             lambda: create_new_processor(processor=proc, parameter_dict={'detector.characteristics.quantum_efficiency': 0.5}),
+             lambda: create_new_processor(processor=proc, parameter_dict={}), lambda: proc.replace({})):      # nothing to set: still a copy
     new = make()
     if new is proc or new.detector is proc.detector or new.pipeline is proc.pipeline:
         VIOLATED, DETAIL = True, 'the processor handed to a run IS the one of the caller (no copy made when the requested values equal the current ones)'
